@@ -334,7 +334,12 @@ def run(chk):
             lead = "".join(t for kind, t in parts[: next((i for i, p_ in enumerate(parts) if p_[0] == "val"), len(parts))])
             firstval = next((p_[1] for p_ in parts if p_[0] == "val"), None)
             shows_d = firstval is not None and depends_on_inputs(firstval.value if isinstance(firstval, ast.FormattedValue) else firstval, bnd)
-            spec = u(firstval.format_spec) if isinstance(firstval, ast.FormattedValue) and firstval.format_spec is not None else ""
+            spec = ""
+            if isinstance(firstval, ast.FormattedValue) and firstval.format_spec is not None:
+                try:
+                    spec = minieval.ev(firstval.format_spec, {k_: value_of(v_, bnd) for k_, v_ in bnd.items() if isinstance(v_, ast.Constant)})
+                except minieval.CannotEval:
+                    spec = u(firstval.format_spec)
             table[(pct, k)] = (fn_t, lead, shows_d, spec, bnd)
         if failed:
             break
@@ -347,13 +352,14 @@ def run(chk):
         for pct in (True, False):
             mode = "relative" if pct else "absolute"
             bnd = table[(pct, 2)][4]
-            prec = [nm for nm, v in bnd.items() if isinstance(v, ast.Constant) and isinstance(v.value, int) and not isinstance(v.value, bool)]
             pv = None
             import math
+            import re as _re
             if pct in thr_vals and thr_vals[pct] > 0:
                 pv = -math.log10(thr_vals[pct])
             spec = table[(pct, 0)][3]
-            ok = pv is not None and abs(pv - round(pv)) < 1e-9 and any(bnd[nm].value == round(pv) and nm in spec for nm in prec)
+            sm_ = _re.fullmatch(r"\.(\d+)f", spec or "")
+            ok = pv is not None and abs(pv - round(pv)) < 1e-9 and sm_ is not None and int(sm_.group(1)) == round(pv)
             chk.ob("O20.3", f"threshold == 10^-precision of the printed format ({mode})", ok, fnode, f"threshold {thr_vals.get(pct)}; format spec {spec!r}", key=f"{_R}:_diff:threshold:{mode}")
             hi, at_hi, mid, at_lo, lo = (table[(pct, k)] for k in (2, 1, 0, -1, -2))
             chk.ob("O20.3", f"d > thr -> colour for increase, '+' prefix ({mode})", hi[0] == G and hi[1] == "+" and hi[2], fnode, f"{hi[0]}, prefix {hi[1]!r}", key=f"{_R}:_diff:above:{mode}")
@@ -430,9 +436,34 @@ def run(chk):
         except UnknownAtom as e:
             chk.ob("O20.5", "line guard", False, line, f"guard tests something else than None-ness: {e} (a value of 0 must still be compared)")
     tl = [n for n in walk_body(mt) if isinstance(n, ast.For) and isinstance(n.iter, ast.Call) and last_attr(n.iter.func) == "tasks"]
-    ok = bool(tl) and isinstance(tl[0].body[0], ast.If) and isinstance(tl[0].body[0].test, ast.Compare) and isinstance(tl[0].body[0].test.ops[0], ast.In) and last_attr(tl[0].body[0].test.comparators[0].func) == "tasks" \
-        and u(tl[0].iter.func.value) != u(tl[0].body[0].test.comparators[0].func.value)
-    chk.ob("O20.5", "per-task lines for the intersection of tasks", ok, tl[0] if tl else mt, "")
+    ok = False
+    detail = ""
+    if tl:
+        from sa import pat as _pat
+        mdefs_ = local_defs(mt)
+        tests = [t_ for n_ in ast.walk(tl[0]) if isinstance(n_, ast.If) for t_ in [n_.test] if isinstance(t_, ast.Compare) and len(t_.ops) == 1 and isinstance(t_.ops[0], (ast.In, ast.NotIn)) and u(t_.left) == u(tl[0].target)]
+        if tests:
+            coll = source.inline_node(tests[0].comparators[0], mdefs_)
+            while isinstance(coll, ast.Call) and dotted(coll.func) in ("set", "list", "tuple", "frozenset", "sorted") and len(coll.args) == 1:
+                coll = coll.args[0]
+            ok = isinstance(coll, ast.Call) and last_attr(coll.func) == "tasks" and u(coll.func.value) != u(tl[0].iter.func.value)
+            detail = f"`{u(tl[0].target)}` of {u(tl[0].iter)} kept when in {u(coll)}"
+    chk.ob("O20.5", "per-task lines for the intersection of tasks", ok, tl[0] if tl else mt, detail)
+    # the task list is consulted once per baseline task: it must be a re-iterable collection (a generator would be exhausted by the first membership test)
+    met_ = repo.module("esrally/metrics.py")
+    tk_ = met_.methods(met_.cls("GlobalStats")).get("tasks")
+    if tk_ is None:
+        raise AnchorMissing("GlobalStats.tasks")
+    trets = [n for n in walk_body(tk_) if isinstance(n, ast.Return)]
+    gen = [r for r in trets if isinstance(r.value, ast.GeneratorExp) or (isinstance(r.value, ast.Call) and dotted(r.value.func) in ("map", "filter", "iter", "zip", "reversed"))] + \
+          [n for n in walk_body(tk_) if isinstance(n, (ast.Yield, ast.YieldFrom))]
+    chk.ob("O20.5", "GlobalStats.tasks() returns a re-iterable collection", bool(trets) and not gen, gen[0] if gen else tk_,
+           "" if not gen else "single-use iterator: after the first membership test in the comparison loop every later common task is missed (and swapping the races changes the set of lines)",
+           key="esrally/metrics.py:GlobalStats.tasks:re-iterable")
+    from rules.C08 import record_key_agreement
+
+    chk.use(met_)
+    record_key_agreement(chk, "O20.5", met_)
     # scalar guards
     n_guard = 0
     for f, c in sites:
